@@ -37,7 +37,7 @@ class NetTr(py2gal.Translator):
     additional statement forms (may raise, exactly as CPython does):
         if s[k] == 'c': A else: B     IndexError when k is out of range
         a, b = s.split('c')           ValueError unless exactly two fields
-        a, b = s.split('c', n)        the same with maxsplit
+        a, b = s.split('c', n)        the same with maxsplit; s.rsplit('c', n) likewise (from the right)
         x = s.split('c')[k]           IndexError when there is no k-th field
         return (e0, e1)               element forms: None, a str, `None if v is None else int(v)`
         return Ctor(a, b, c, d, e)    five str names (a SplitResult) -> a 5-tuple
@@ -70,16 +70,18 @@ class NetTr(py2gal.Translator):
         return super().expr(e)
 
     def split_call(self, e):
-        """e = <str expr>.split('c'[, n])  ->  Coq text of the list of fields, else None"""
-        if not (isinstance(e, ast.Call) and isinstance(e.func, ast.Attribute) and e.func.attr == 'split'): return None
+        """e = <str expr>.split('c'[, n]) or .rsplit('c'[, n])  ->  Coq text of the list of fields, else None"""
+        if not (isinstance(e, ast.Call) and isinstance(e.func, ast.Attribute) and e.func.attr in ('split', 'rsplit')): return None
         if e.keywords or not (1 <= len(e.args) <= 2) or _char(e.args[0]) is None: raise Unsupported('split arguments')
         s, ts = self.expr(e.func.value)
         if ts != 'bytes': raise Unsupported('split on ' + ts)
+        right = e.func.attr == 'rsplit'
         if len(e.args) == 2:
             n = e.args[1]
             if not (isinstance(n, ast.Constant) and isinstance(n.value, int) and not isinstance(n.value, bool) and 0 <= n.value <= 64):
                 raise Unsupported('maxsplit')
-            return '(split_char_max %d%%N %s %d%%nat)' % (_char(e.args[0]), s, n.value)
+            return '(%ssplit_char_max %d%%N %s %d%%nat)' % ('r' if right else '', _char(e.args[0]), s, n.value)
+        # without maxsplit, rsplit and split give the same fields
         return '(split_char %d%%N %s)' % (_char(e.args[0]), s)
 
     def bind_str(self, tgt, rest_fn, fresh):
@@ -156,7 +158,7 @@ class NetTr(py2gal.Translator):
         return super().block(stmts)
 
     def is_split(self, e):
-        return isinstance(e, ast.Call) and isinstance(e.func, ast.Attribute) and e.func.attr == 'split'
+        return isinstance(e, ast.Call) and isinstance(e.func, ast.Attribute) and e.func.attr in ('split', 'rsplit')
 
     def ret_tuple(self, t):
         if len(t.elts) != len(self.ret_elems): raise Unsupported('tuple arity')
